@@ -459,6 +459,17 @@ func c01(run *core.Run, replay string) {
 			}
 		}
 	}
+	// 6g. staircase (Fibonacci-like) histograms that defeat code length limiting, chunk totals around the renormalisation scale
+	for vi, sz := range []int{2048, 2049, 4096, 18432, 18433, 67585} {
+		nq := run.Pick(12, 60)
+		if sz < 2100 {
+			nq = run.Pick(160, 1500) // tiny cases: many histograms
+		}
+		for q := 0; q < nq; q++ {
+			add(rtCase{Cfg: kz.Cfg{Transform: []string{"NONE", "NONE", "RLT"}[q%3], Entropy: []string{"HUFFMAN", "HUFFMAN", "ANS0", "HUFFMAN"}[(q/3)%4], BlockSize: []uint{65536, 4096, 1 << 20}[(vi+q)%3], Jobs: uint(1 + q%2), Checksum: cks[q%3]},
+				Shape: []string{"staircase2", "staircase"}[q%2], Size: sz, Seed: S*41 + int64(vi*100+q), HintMode: "absent", DecJobs: 1})
+		}
+	}
 	// both variants of the text codec on vocabularies that overflow the dictionary, in a block shorter than the block size
 	for vi, e := range []string{"NONE", "FPAQ", "HUFFMAN", "ANS1", "RANGE", "FPAQ"} {
 		for q := 0; q < 2; q++ {
